@@ -20,6 +20,7 @@ import ast
 import os
 import sys
 
+import pynorm
 from py2coq_arith import Unsupported
 
 LOGSRC = {"order_id": "order_id", "market_id": "market_id", "order_time": "placed_at", "agent_id": "agent_id", "is_buy": "is_buy",
@@ -63,14 +64,18 @@ def keycond(e):
     return tab[op]
 
 
-def _items_comp(e, elt):
-    """[<elt> for key, value in self.expire_time_list.items() if c] -> c"""
-    if not (isinstance(e, ast.ListComp) and ast.unparse(e.elt) == elt and len(e.generators) == 1):
+ETL = "self.expire_time_list"
+
+
+def _comp_cond(e, want):
+    """a comprehension over the expiry index selecting keys (want='key') or buckets (want='value') -> its key condition"""
+    if not (isinstance(e, ast.ListComp) and len(e.generators) == 1 and len(e.generators[0].ifs) == 1 and ast.unparse(e.elt) == want):
         raise Unsupported("comprehension " + ast.unparse(e)[:100])
     g = e.generators[0]
-    if ast.unparse(g.target) != "(key, value)" or ast.unparse(g.iter) != "self.expire_time_list.items()" or len(g.ifs) != 1:
-        raise Unsupported("comprehension " + ast.unparse(e)[:100])
-    return keycond(g.ifs[0])
+    tgt, it = ast.unparse(g.target), ast.unparse(g.iter)
+    if (tgt, it) == ("(key, value)", ETL + ".items()") or (want == "key" and tgt == "key" and it in (ETL, ETL + ".keys()")):
+        return keycond(g.ifs[0])
+    raise Unsupported("comprehension " + ast.unparse(e)[:100])
 
 
 def translate(repo):
@@ -86,47 +91,87 @@ def translate(repo):
         a = fs[0].args
         if [x.arg for x in a.args] != ["self"] + params or a.vararg or a.kwarg or a.kwonlyargs or a.defaults:
             raise Unsupported("signature of " + name)
-        return _nodoc(fs[0].body)
+        return pynorm.normalise(fs[0], cs[0], returns_none=False)
     b = fn("_check_expired_orders", [])
-    if len(b) != 8:
-        raise Unsupported(f"_check_expired_orders: {len(b)} statements where 8 are expected")
-    D, dv = _val(b[0])
-    if not (isinstance(dv, ast.Call) and ast.unparse(dv.func) == "sum" and len(dv.args) == 2 and ast.unparse(dv.args[1]) == "[]"):
-        raise Unsupported("due orders: " + ast.unparse(dv)[:100])
-    c_orders = _items_comp(dv.args[0], "value")
-    K, kv = _val(b[1])
-    c_keys = _items_comp(kv, "key")
-    L, lv = _val(b[2])
-    if ast.unparse(lv) != "[]":
-        raise Unsupported("logs start as " + ast.unparse(lv))
-    if ast.unparse(b[3]) != f"if len({D}) == 0:\n    return {L}":
-        raise Unsupported("early return: " + ast.unparse(b[3])[:100])
-    f = b[4]
-    if not (isinstance(f, ast.For) and isinstance(f.target, ast.Name) and ast.unparse(f.iter) == D and not f.orelse and len(f.body) == 3):
+    # --- the definitions of the due orders D and the due keys K (in either order; D possibly collected bucket by bucket over K) ---
+    defs, i = {}, 0
+    while i < len(b):
+        s = b[i]
+        if isinstance(s, (ast.Assign, ast.AnnAssign)) and getattr(s, "value", None) is not None:
+            name, v = _val(s)
+            if ast.unparse(v) == "[]":
+                defs[name] = ("EMPTY",)
+            elif isinstance(v, ast.Call) and ast.unparse(v.func) == "sum" and len(v.args) == 2 and ast.unparse(v.args[1]) == "[]":
+                defs[name] = ("ORDERS", _comp_cond(v.args[0], "value"))
+            elif isinstance(v, ast.ListComp):
+                defs[name] = ("KEYS", _comp_cond(v, "key"))
+            else:
+                raise Unsupported("statement " + ast.unparse(s)[:100])
+        elif (isinstance(s, ast.For) and isinstance(s.target, ast.Name) and isinstance(s.iter, ast.Name) and defs.get(s.iter.id, ("",))[0] == "KEYS"
+              and not s.orelse and len(s.body) == 1):
+            k, q = s.target.id, ast.unparse(s.body[0])
+            hit = [x for x, d in defs.items() if d == ("EMPTY",) and q in (f"{x} = {x} + {ETL}[{k}]", f"{x} += {ETL}[{k}]", f"{x}.extend({ETL}[{k}])")]
+            if len(hit) != 1:
+                break
+            defs[hit[0]] = ("ORDERS_VIA", s.iter.id)
+        else:
+            break
+        i += 1
+    rest = b[i:]
+    if len(rest) != 5:
+        raise Unsupported(f"_check_expired_orders: {len(rest)} statements after the selection where 5 are expected")
+    g0 = rest[0]
+    if not (isinstance(g0, ast.If) and not g0.orelse and len(g0.body) == 1 and isinstance(g0.body[0], ast.Return)
+            and isinstance(g0.test, ast.Compare) and ast.unparse(g0.test).startswith("len(") and ast.unparse(g0.test).endswith(") == 0")):
+        raise Unsupported("early return: " + ast.unparse(g0)[:100])
+    D = ast.unparse(g0.test.left.args[0])
+    L = ast.unparse(g0.body[0].value) if g0.body[0].value is not None else None
+    if defs.get(D, ("",))[0] not in ("ORDERS", "ORDERS_VIA") or defs.get(L) != ("EMPTY",):
+        raise Unsupported("early return: " + ast.unparse(g0)[:100])
+    f = rest[1]
+    if not (isinstance(f, ast.For) and isinstance(f.target, ast.Name) and ast.unparse(f.iter) == D and not f.orelse):
         raise Unsupported("the loop over the due orders")
     o = f.target.id
-    x, call = _val(f.body[0])
+    fb = list(f.body)
+    if len(fb) == 3:
+        x, call = _val(fb[0])
+        if ast.unparse(fb[1]) != f"{L}.append({x})":
+            raise Unsupported("loop body: " + ast.unparse(fb[1])[:100])
+        fb = [None, fb[2]]
+    elif len(fb) == 2 and isinstance(fb[0], ast.Expr) and isinstance(fb[0].value, ast.Call) and ast.unparse(fb[0].value.func) == f"{L}.append" \
+            and len(fb[0].value.args) == 1 and not fb[0].value.keywords:
+        call = fb[0].value.args[0]
+    else:
+        raise Unsupported("loop body: " + "; ".join(ast.unparse(q) for q in fb)[:120])
     if not (isinstance(call, ast.Call) and ast.unparse(call.func) == "ExpirationLog" and not call.args):
         raise Unsupported("the expiration log")
     kw = {q.arg: ast.unparse(q.value) for q in call.keywords}
-    if sorted(kw) != sorted(list(LOGSRC) + ["time"]) or kw["time"] != "self.time" or any(kw[n] != f"{o}.{s}" for n, s in LOGSRC.items()):
+    if sorted(kw) != sorted(list(LOGSRC) + ["time"]) or kw["time"] != "self.time" or any(kw[n] != f"{o}.{src}" for n, src in LOGSRC.items()):
         raise Unsupported("the expiration log: " + ast.unparse(call)[:160])
-    if ast.unparse(f.body[1]) != f"{L}.append({x})" or ast.unparse(f.body[2]) != f"self.priority_queue.remove({o})":
-        raise Unsupported("loop body: " + "; ".join(ast.unparse(q) for q in f.body[1:])[:120])
-    if ast.unparse(b[5]) != "heapq.heapify(self.priority_queue)":
-        raise Unsupported("statement " + ast.unparse(b[5])[:80])
-    g = b[6]
-    if not (isinstance(g, ast.For) and isinstance(g.target, ast.Name) and ast.unparse(g.iter) == K and not g.orelse and len(g.body) == 1
-            and ast.unparse(g.body[0]) == f"self.expire_time_list.pop({g.target.id})"):
+    if ast.unparse(fb[1]) != f"self.priority_queue.remove({o})":
+        raise Unsupported("loop body: " + ast.unparse(fb[1])[:100])
+    if ast.unparse(rest[2]) != "heapq.heapify(self.priority_queue)":
+        raise Unsupported("statement " + ast.unparse(rest[2])[:80])
+    g = rest[3]
+    if not (isinstance(g, ast.For) and isinstance(g.target, ast.Name) and isinstance(g.iter, ast.Name) and defs.get(g.iter.id, ("",))[0] == "KEYS"
+            and not g.orelse and len(g.body) == 1 and ast.unparse(g.body[0]) == f"{ETL}.pop({g.target.id})"):
         raise Unsupported("the loop dropping the due buckets")
-    if ast.unparse(b[7]) != f"return {L}":
-        raise Unsupported("statement " + ast.unparse(b[7])[:80])
+    K = g.iter.id
+    if ast.unparse(rest[4]) != f"return {L}":
+        raise Unsupported("statement " + ast.unparse(rest[4])[:80])
+    c_keys = defs[K][1]
+    if defs[D][0] == "ORDERS":
+        c_orders = defs[D][1]
+        orders_term = "concat (map snd (filter (fun kv => due_orders_gen (fst kv) time) tbl))"
+    else:
+        c_orders = defs[defs[D][1]][1]
+        orders_term = "concat (map (fun k => xget k tbl) (map fst (filter (fun kv => due_orders_gen (fst kv) time) tbl)))"
     st = fn("_set_time", ["time"])
-    if len(st) != 3 or ast.unparse(st[0]) != "self.time = time":
-        raise Unsupported("_set_time: " + "; ".join(ast.unparse(q) for q in st)[:120])
-    n1, v1 = _val(st[1])
-    if ast.unparse(v1) != "self._check_expired_orders()" or ast.unparse(st[2]) != f"return {n1}":
-        raise Unsupported("_set_time: " + "; ".join(ast.unparse(q) for q in st)[:120])
+    txt = [ast.unparse(q) for q in st]
+    if not (txt == ["self.time = time", "return self._check_expired_orders()"] or
+            (len(st) == 3 and txt[0] == "self.time = time" and ast.unparse(_val(st[1])[1]) == "self._check_expired_orders()"
+             and txt[2] == f"return {_val(st[1])[0]}")):
+        raise Unsupported("_set_time: " + "; ".join(txt)[:120])
     return ("(* GENERATED by harness/py2coq_expire.py - do not edit *)\n"
             "Require Import Pams.Prelude Pams.Match Pams.Market Pams.OrderPy Pams.ExpirePy.\nOpen Scope Z_scope.\n\n"
             "(* pams/order_book.py: OrderBook._check_expired_orders - which buckets of the expiry index are due *)\n"
@@ -134,7 +179,7 @@ def translate(repo):
             f"Definition due_keys_gen (key time : Z) : bool := {c_keys}.\n\n"
             "(* the whole method: (records reported, queue, expiry index) *)\n"
             "Definition check_expired_gen (tbl : xtable) (queue : list O) (time : Z) : list record * list O * xtable :=\n"
-            "  let delete_orders := concat (map snd (filter (fun kv => due_orders_gen (fst kv) time) tbl)) in\n"
+            f"  let delete_orders := {orders_term} in\n"
             "  let delete_keys := map fst (filter (fun kv => due_keys_gen (fst kv) time) tbl) in\n"
             "  if (Z.of_nat (length delete_orders) =? 0) then ([], queue, tbl) else\n"
             "  let logs := map (fun o => RExpire (mkO (oid o) (agent o) (mkt o) (isbuy o) (price o) (vol o) (placed o) (ttl o)) time) delete_orders in\n"
